@@ -1,7 +1,389 @@
-import Atomman.Prelude
-open Atomman
+import Atomman.C13
+open Atomman Atomman.C13
+set_option linter.constructorNameAsVariable false
 
-/-- stub: replaced when the C13 model is built. -/
-def handleC13 (_toks : List String) : String := err "op"
+/-!
+  line protocol of the C13 model driver (see harness/props/c13.py).  All numbers exact rationals.
+
+  cells setting maxindex m n | xi(3 rat) | hkl(3 int) | conventional vects(9 rat)
+      -> ok U(9) ; cut line motion ; mRaw(3) nRaw(3) ; uvws in the conventional setting (9 rat) ; mTie nTie planeNear
+  cellsvalid setting maxindex m n | xi | hkl | vects | U(9 int) | tn td
+      -> 1 | 0 reason         (relational acceptance of the coded answer when a float tie decides)
+  shifts numdec tol W x…      -> shifts ; rounded coords
+  sizes line s0 s1 s2|- - - qa qb qc   -> lo hi lo hi lo hi | err:type
+  mono  <common> shape width nsym | tab(3N')
+  array <common> burgers(3) linear bw cutoff nsym | tab(3N')
+     <common> = m n | s0 s1 s2 qa qb qc | pbc(3) | rcell box(12) | natoms | (atype x y z)* | shift(3) | center(3)
+-/
+
+abbrev P := StateT (List String) Option
+
+def tok : P String := fun s => match s with | [] => none | t :: r => some (t, r)
+def pRat : P Rat := do let t ← tok; match parseRat? t with | some r => pure r | none => failure
+def pInt : P Int := do let t ← tok; match t.toInt? with | some r => pure r | none => failure
+def pNat : P Nat := do let t ← tok; match t.toNat? with | some r => pure r | none => failure
+def pBool : P Bool := do let t ← tok; match parseBool? t with | some r => pure r | none => failure
+def pOptInt : P (Option Int) := do
+  let t ← tok
+  if t = "-" then pure none else match t.toInt? with | some r => pure (some r) | none => failure
+def pV3 : P (V3 Rat) := do pure ⟨← pRat, ← pRat, ← pRat⟩
+def pIV : P IV := do pure ⟨← pInt, ← pInt, ← pInt⟩
+def pM3 : P (M3 Rat) := do pure ⟨← pV3, ← pV3, ← pV3⟩
+def pM3I : P (M3 Int) := do pure ⟨← pIV, ← pIV, ← pIV⟩
+def pBox : P (Box Rat) := do pure ⟨← pM3, ← pV3⟩
+def pAx : P Ax := do let t ← tok; match Ax.ofString? t with | some a => pure a | none => failure
+def pMany {α : Type} (p : P α) : Nat → P (List α)
+  | 0 => pure []
+  | n + 1 => do let a ← p; let r ← pMany p n; pure (a :: r)
+def pAtom : P (Atom Rat) := do let t ← pInt; let p ← pV3; pure ⟨t, p, []⟩
+def pEnd : P Unit := fun s => match s with | [] => some ((), []) | _ => none
+
+def showV (v : V3 Rat) : String := showRats v.toList
+def showIV (v : IV) : String := showInts v.toList
+def showM3I (m : M3 Int) : String := showInts (m.r0.toList ++ m.r1.toList ++ m.r2.toList)
+def showBox (b : Box Rat) : String := showRats (b.vects.toList ++ b.origin.toList)
+def showPos (l : List (Atom Rat)) : String := showRats (l.flatMap (fun a => a.pos.toList))
+def showTypes (l : List (Atom Rat)) : String := showInts (l.map (·.atype))
+def showPbc (p : V3 Bool) : String := " ".intercalate ([p.x, p.y, p.z].map showBool)
+
+/-! ### cells -/
+
+def parallelI (a b : IV) : Bool := V3.cross a b == (⟨0, 0, 0⟩ : IV)
+
+/-- `|cos_a² - cos_b²| ≤ (tn/td) cos_b²` with equal signs of `d` (near tie of the two angles). -/
+def nearCos (a b : Cand Rat) (eps : Rat) : Bool :=
+  let ca := a.d * a.d * b.m2
+  let cb := b.d * b.d * a.m2
+  (decide (a.d < 0) == decide (b.d < 0)) && decide (ratAbs (ca - cb) ≤ eps * cb)
+
+structure CellsIn where
+  L : M3 Int
+  maxindex : Int
+  m : Ax
+  n : Ax
+  xi : V3 Rat
+  hkl : IV
+  vects : M3 Rat
+
+def pCellsIn : P (Option CellsIn) := do
+  let setting ← tok
+  let mi ← pInt
+  let m ← tok; let n ← tok
+  let xi ← pV3; let hkl ← pIV; let v ← pM3
+  match C14.c2p setting, Ax.ofString? m, Ax.ofString? n with
+  | some L, some m, some n => pure (some ⟨L, mi, m, n, xi, hkl, v⟩)
+  | _, _, _ => pure none
+
+def tieEps : Rat := 1 / 1000000000
+
+def handleCells (c : CellsIn) : String :=
+  if M3.det c.vects = 0 then err "value" else
+  match normalDir c.vects c.hkl, xiPrim c.L c.xi with
+  | none, _ => err "value"
+  | _, none => err "value"
+  | some N, some xiP =>
+    let pv := primVects c.L c.vects
+    let Xi := M3.vecMul c.xi c.vects
+    match setCells (1 / 1000000000000000000 : Rat) pv N Xi xiP c.m c.n c.maxindex with
+    | .error e => err e
+    | .ok r =>
+      let M := V3.cross N Xi
+      let all := allUvws c.maxindex
+      let bm := mkCand pv M r.mRaw
+      let bn := mkCand pv N r.nRaw
+      let mTie := (all.filter (inPlane pv N)).any fun v =>
+        !parallelI v r.mRaw && nearCos (mkCand pv M v) bm tieEps
+      let nTie := all.any fun v => !parallelI v r.nRaw && nearCos (mkCand pv N v) bn tieEps
+      -- a candidate whose angle to N is within about 2e-3 degrees of 90 without being in plane
+      let planeNear := all.any fun v =>
+        let cd := mkCand pv N v
+        cd.d ≠ 0 && decide (cd.d * cd.d * 1000000000 < cd.m2 * V3.normSq N)
+      let conv := [r.uvws.r0, r.uvws.r1, r.uvws.r2].flatMap (fun v => (C14.p2cRat c.L v).toList)
+      "ok " ++ showM3I r.uvws ++ " ; " ++ toString r.o.cut ++ " " ++ toString r.o.line ++ " " ++ toString r.o.motion
+        ++ " ; " ++ showIV r.mRaw ++ " " ++ showIV r.nRaw ++ " ; " ++ showRats conv ++ " ; "
+        ++ " ".intercalate ([mTie, nTie, planeNear].map showBool)
+
+/-- invert `orderUvws`: `(xi, m, n)` from the rows. -/
+def unorder (cut line : Nat) (U : M3 Int) : IV × IV × IV :=
+  if cut = 2 then (if line = 0 then (U.r0, U.r1, U.r2) else (-U.r1, U.r0, U.r2))
+  else if cut = 1 then (if line = 2 then (U.r2, U.r0, U.r1) else (-U.r0, U.r2, U.r1))
+  else (if line = 1 then (U.r1, U.r2, U.r0) else (-U.r2, U.r1, U.r0))
+
+def inRange (n : Int) (v : IV) : Bool :=
+  decide (v.x.natAbs ≤ n.toNat) && decide (v.y.natAbs ≤ n.toNat) && decide (v.z.natAbs ≤ n.toNat) &&
+    !(v.x == 0 && v.y == 0 && v.z == 0)
+
+/-- relational model: the coded rows are *a* possible outcome of the two searches up to the relative
+    tolerance `eps` on squared cosines. -/
+def handleCellsValid (c : CellsIn) (U : M3 Int) (eps : Rat) : String :=
+  match normalDir c.vects c.hkl, xiPrim c.L c.xi, orient c.m c.n with
+  | some N, some xiP, some o =>
+    let pv := primVects c.L c.vects
+    let Xi := M3.vecMul c.xi c.vects
+    let M := V3.cross N Xi
+    let (xi, m, n) := unorder o.cut o.line U
+    let all := allUvws c.maxindex
+    if xi ≠ xiP then "0 xi" else
+    if C14.gcd3 m ≠ 1 then "0 m-not-reduced" else
+    if C14.gcd3 n ≠ 1 then "0 n-not-reduced" else
+    if !(all.any fun v => C14.reduceGcd v == m && inPlane pv N v) then "0 m-not-an-in-plane-candidate" else
+    if !(all.any fun v => C14.reduceGcd v == n) then "0 n-not-a-candidate" else
+    let cm := mkCand pv M m
+    let cn := mkCand pv N n
+    let worse := fun (a b : Cand Rat) =>   -- cos a < cos b by more than eps (relative, squared)
+      cosLt a b && !nearCos a b eps
+    if (all.filter (inPlane pv N)).any (fun v => worse cm (mkCand pv M v)) then "0 m-not-closest" else
+    if all.any (fun v => worse cn (mkCand pv N v)) then "0 n-not-closest" else "1"
+  | _, _, _ => "0 refused"
+
+/-! ### monopole / array -/
+
+structure Common where
+  o : Orient
+  sz : Sizes
+  rcell : Sys Rat
+  shift : V3 Rat
+  center : V3 Rat
+  /-- optional replacement of the reference system's box and positions by the implementation's (used when an atom
+      sits within rounding error of a periodic face, where the float `floor` may pick the other image) -/
+  over : Option (Box Rat × List (V3 Rat))
+
+inductive CErr | format | assert | type | value
+
+def pCommon : P (Except CErr Common) := do
+  let m ← pAx; let n ← pAx
+  let s0 ← pOptInt; let s1 ← pOptInt; let s2 ← pOptInt
+  let qa ← pOptInt; let qb ← pOptInt; let qc ← pOptInt
+  let pbc : V3 Bool := ⟨← pBool, ← pBool, ← pBool⟩
+  let box ← pBox
+  let na ← pNat
+  let atoms ← pMany pAtom na
+  let shift ← pV3
+  let center ← pV3
+  let nb ← pNat
+  let over ← (if nb = 0 then pure none else do
+    let b ← pBox
+    let ps ← pMany pV3 nb
+    pure (some (b, ps)) : P (Option (Box Rat × List (V3 Rat))))
+  match orient m n with
+  | none => pure (.error .assert)
+  | some o =>
+    let mults : Option (Option IV) := match s0, s1, s2 with
+      | some a, some b, some c => some (some ⟨a, b, c⟩)
+      | none, none, none => some none
+      | _, _, _ => none
+    match mults with
+    | none => pure (.error .format)
+    | some mu =>
+      match sizes o.line mu qa qb qc with
+      | none => pure (.error .type)
+      | some sz =>
+        if M3.det box.vects = 0 || atoms.isEmpty then pure (.error .value)
+        else pure (.ok ⟨o, sz, ⟨box, pbc, atoms⟩, shift, center, over⟩)
+
+def cerr : CErr → String
+  | .format => err "format" | .assert => err "assert" | .type => err "type" | .value => err "value"
+
+/-- displacement field given as a table over the reference positions. -/
+def tabU (keys : List (V3 Rat)) (tab : List (V3 Rat)) : V3 Rat → V3 Rat :=
+  let al := keys.zip tab
+  fun q => match al.find? (fun kv => kv.1 == q) with
+    | some kv => kv.2
+    | none => ⟨0, 0, 0⟩
+
+def distInt (x : Rat) : Rat := let f : Rat := (x.floor : Int); min (x - f) (f + 1 - x)
+
+def nearEps : Rat := 1 / 10000000
+
+/-- per atom: some scaled coordinate along a periodic direction is within `nearEps` of an integer
+    (the float `floor` of `System.wrap` may then pick the neighbouring image). -/
+def wrapNear (box : Box Rat) (pbc : V3 Bool) (ps : List (V3 Rat)) : List Bool :=
+  ps.map fun p =>
+    let s := box.cartToRel p
+    (pbc.x && decide (distInt s.x < nearEps)) || (pbc.y && decide (distInt s.y < nearEps)) ||
+      (pbc.z && decide (distInt s.z < nearEps))
+
+/-- how close the outermost atoms are to the faces across the non-periodic directions (`min <= 0`, `max >= 1`
+    decide whether `System.wrap` pads the cell): smallest `|min|`, `|1 - max|`. -/
+def padMargin (box : Box Rat) (pbc : V3 Bool) (ps : List (V3 Rat)) : Rat :=
+  let ss := ps.map box.cartToRel
+  let one := fun (per : Bool) (xs : List Rat) =>
+    if per then (1 : Rat) else
+    match xs with
+    | [] => 1
+    | x :: r => min (ratAbs (r.foldl min x)) (ratAbs (1 - r.foldl max x))
+  min (one pbc.x (ss.map (·.x))) (min (one pbc.y (ss.map (·.y))) (one pbc.z (ss.map (·.z))))
+
+def showFlags (l : List Bool) : String := " ".intercalate (l.map showBool)
+
+/-- relative closeness of `g` to `-width |nrm|` (squared) for a plane: 0 = exactly on the shifted plane. -/
+def planeMargin (width : Rat) (pl : V3 Rat × V3 Rat) (p : V3 Rat) : Rat :=
+  let g := V3.dot pl.1 (p - pl.2)
+  let t := width * width * V3.normSq pl.1
+  if 0 ≤ g then (if t = 0 then 1 else (g * g + t) / t) else ratAbs (g * g - t) / t
+
+def minOfL (l : List Rat) (d : Rat) : Rat := l.foldl min d
+
+def shapeOf? : String → Option Shape
+  | "box" => some .box | "cylinder" => some .cylinder | _ => none
+
+def handleMono (toks : List String) : String :=
+  let p : P (Except CErr (Common × Shape × Rat × Nat × List (V3 Rat))) := do
+    let c ← pCommon
+    let sh ← tok; let w ← pRat; let ns ← pNat
+    let nt ← pNat
+    let tab ← pMany pV3 nt
+    pEnd
+    match c, shapeOf? sh with
+    | .error e, _ => pure (.error e)
+    | .ok _, none => pure (.error .value)
+    | .ok c, some sh => pure (.ok (c, sh, w, ns, tab))
+  match p.run toks with
+  | none => err "format"
+  | some (.error e, _) => cerr e
+  | some (.ok (c, shape, width, nsym, tab), _) =>
+    let base0 := baseSystem Rat.floor C05.pad001 c.rcell c.sz c.shift
+    if tab.length ≠ base0.atoms.length then err "format" else
+    let base : Sys Rat := match c.over with
+      | none => base0
+      | some (b, ps) => ⟨b, base0.pbc, setPos base0.atoms ps⟩
+    if base.atoms.length ≠ base0.atoms.length then err "format" else
+    let u := tabU (base.atoms.map (fun a => a.pos - c.center)) tab
+    let disl0 := monopoleRaw Rat.floor C05.pad001 u c.o.line c.center base
+    match monopoleBoundary C05.ratSqrt c.o shape width nsym base disl0 with
+    | none => err "assert"
+    | some disl =>
+      -- margins: both wraps, boundary
+      let sb := C04.superBox c.rcell.box c.sz.a c.sz.b c.sz.c
+      let sup := C04.supersizeAtoms c.rcell.box c.sz.a c.sz.b c.sz.c c.rcell.atoms
+      let w1 := wrapNear sb c.rcell.pbc (sup.map (fun a => a.pos + c.shift))
+      let w2 := wrapNear base.box (pbcOnly c.o.line) (base.atoms.map (fun a => displaced u c.center a.pos))
+      let bm : List Bool :=
+        if width > 0 then
+          match shape with
+          | .box =>
+            let pls := boxBoundaryPlanes c.o.line base.box
+            disl.atoms.map (fun a => decide (minOfL (pls.map (fun pl => planeMargin width pl a.pos)) 1 < nearEps))
+          | .cylinder =>
+            let r := cylRadius C05.ratSqrt c.o.motion c.o.cut c.o.line base.box width
+            let L := base.box.vects.row c.o.line
+            let t := r * r * V3.normSq L
+            disl.atoms.map (fun a => decide (ratAbs (V3.normSq (V3.cross a.pos L) - t) / t < nearEps))
+        else disl.atoms.map (fun _ => false)
+      let r : Rat := if width > 0 && shape == .cylinder then
+        cylRadius C05.ratSqrt c.o.motion c.o.cut c.o.line base.box width else 0
+      "ok " ++ showBox base0.box ++ " | " ++ showPos base0.atoms ++ " | " ++ showBox disl.box ++ " | " ++
+        showPos disl.atoms ++ " | " ++ showTypes disl.atoms ++ " | " ++ showPbc disl.pbc ++ " | " ++
+        showFlags w1 ++ " | " ++ showFlags w2 ++ " | " ++ showFlags bm ++ " | " ++ showRat r ++ " | " ++
+        showTypes base.atoms ++ " | " ++
+        showRat (padMargin base.box (pbcOnly c.o.line) (base.atoms.map (fun a => displaced u c.center a.pos)))
+
+def roundHE (x : Rat) : Int := C14.roundHalfEven x
+
+def handleArray (toks : List String) : String :=
+  let p : P (Except CErr (Common × V3 Rat × Bool × Rat × Rat × Nat × List (V3 Rat))) := do
+    let c ← pCommon
+    let b ← pV3; let lin ← pBool; let bw ← pRat; let co ← pRat; let ns ← pNat
+    let nt ← pNat
+    let tab ← pMany pV3 nt
+    pEnd
+    match c with
+    | .error e => pure (.error e)
+    | .ok c => pure (.ok (c, b, lin, bw, co, ns, tab))
+  match p.run toks with
+  | none => err "format"
+  | some (.error e, _) => cerr e
+  | some (.ok (c, burgers, linear, bw, cutoff, nsym, tab), _) =>
+    let base0 := baseSystem Rat.floor C05.pad001 c.rcell c.sz c.shift
+    if tab.length ≠ base0.atoms.length then err "format" else
+    let base : Sys Rat := match c.over with
+      | none => base0
+      | some (b, ps) => ⟨b, base0.pbc, setPos base0.atoms ps⟩
+    if base.atoms.length ≠ base0.atoms.length then err "format" else
+    let atol8 : Rat := 1 / 100000000
+    let rtol5 : Rat := 1 / 100000
+    let o := c.o
+    let baseIn := base
+    let facem := minOfL (base.atoms.map (fun a => ratAbs (ratAbs ((base.box.cartToRel a.pos).get o.motion - 1) - atol8))) 1
+    let base : Sys Rat := { base with atoms := moveUpperFace atol8 base.box o.motion base.atoms }
+    -- the table holds the solver's values at the reference positions after the face atoms were moved
+    let u := tabU (base.atoms.map (fun a => a.pos - c.center)) tab
+    -- margins of the discrete decisions (the harness exempts cases decided within rounding error)
+    let spm := minOfL (base.atoms.map (fun a => ratAbs (ratAbs ((base.box.cartToRel a.pos).get o.cut - 1/2) - atol8))) 1
+    let newvects := tiltedVects o base.box.vects burgers
+    let newbox : Box Rat := ⟨newvects, base.box.origin⟩
+    let length := absK ((base.box.vects.row o.motion).get o.motion)
+    if length = 0 || M3.det newvects = 0 then err "value nonsingular" else
+    let testpos := base.atoms.map fun a => a.pos + linearDisp o.motion o.cut burgers length (a.pos - c.center)
+    let sb := absK ((2 : Rat) * burgers.get o.motion / length)
+    let bids := boundaryIds o newbox sb testpos
+    let newpbc := pbcExcept o.cut
+    let e := expectedDel base.atoms.length base.box.vects newvects
+    let er := roundHE e
+    let intm := ratAbs (ratAbs (e - (er : Rat)) - (atol8 + rtol5 * ratAbs (er : Rat)))
+    let head := fun (tag : String) => tag ++ " | " ++ showRats [spm, intm, e, sb, facem] ++ " | " ++
+      " ".intercalate (bids.map toString)
+    match periodicArray Rat.floor roundHE C05.pad001 u o baseIn burgers c.center linear bw cutoff atol8 atol8 rtol5 nsym with
+    | .error .slip => head "err:value slip"
+    | .error .nonint => head "err:value nonint"
+    | .error (.mismatch ex f) => head ("err:value mismatch " ++ toString ex ++ " " ++ toString f)
+    | .ok r =>
+      let ps := r.base.atoms.map (·.pos)
+      let disp := arrayDisp o linear u c.center burgers length bw base.box ps
+      let w1 := wrapNear (C04.superBox c.rcell.box c.sz.a c.sz.b c.sz.c) c.rcell.pbc
+        ((C04.supersizeAtoms c.rcell.box c.sz.a c.sz.b c.sz.c c.rcell.atoms).map (fun a => a.pos + c.shift))
+      let w2 := wrapNear newbox newpbc (List.zipWith (· + ·) ps disp)
+      let y0 := base.box.origin.get o.cut
+      let y1 := y0 + (base.box.vects.row o.cut).get o.cut
+      let lo := min y0 y1; let hi := max y0 y1
+      let slm := ps.map (fun p => !linear &&
+        decide (min (ratAbs (p.get o.cut - (lo + bw))) (ratAbs (p.get o.cut - (hi - bw))) < nearEps))
+      let bm := if bw > 0 then
+          let pls := arrayBoundaryPlanes o.cut base.box
+          r.disl.atoms.map (fun a => decide (minOfL (pls.map (fun pl => planeMargin bw pl a.pos)) 1 < nearEps))
+        else r.disl.atoms.map (fun _ => false)
+      head "ok" ++ " | " ++ showBox r.disl.box ++ " | " ++ showPos r.disl.atoms ++ " | " ++ showTypes r.disl.atoms
+        ++ " | " ++ " ".intercalate (r.oldId.map toString) ++ " | " ++ showPbc r.disl.pbc ++ " | " ++
+        showFlags w1 ++ " | " ++ showFlags w2 ++ " | " ++ showFlags slm ++ " | " ++ showFlags bm ++ " | " ++
+        toString r.expected ++ " | " ++ showPos r.base.atoms ++ " | " ++
+        " ".intercalate (r.dups.map toString) ++ " | " ++ showBox base0.box ++ " | " ++ showPos base0.atoms ++ " | " ++
+        showRat (padMargin newbox newpbc (List.zipWith (· + ·) ps disp))
+
+def handleC13 (toks : List String) : String :=
+  match toks with
+  | "cells" :: rest =>
+    match (do let c ← pCellsIn; pEnd; pure c : P _).run rest with
+    | some (some c, _) => handleCells c
+    | some (none, _) => err "value"
+    | none => err "format"
+  | "cellsvalid" :: rest =>
+    match (do let c ← pCellsIn; let U ← pM3I; let tn ← pInt; let td ← pInt; pEnd; pure (c, U, tn, td) : P _).run rest with
+    | some ((some c, U, tn, td), _) => if td = 0 then err "format" else handleCellsValid c U ((tn : Rat) / (td : Rat))
+    | some ((none, _, _, _), _) => err "value"
+    | none => err "format"
+  | "shifts" :: numdec :: tol :: w :: rest =>
+    match numdec.toNat?, parseRat? tol, parseRat? w, parseRats? rest with
+    | some d, some tol, some w, some xs =>
+      if xs.isEmpty then err "value" else
+      let coords := roundedCoords d xs
+      showRats (identifyShifts coords w tol) ++ " ; " ++ showRats coords
+    | _, _, _, _ => err "format"
+  | ["sizes", line, s0, s1, s2, qa, qb, qc] =>
+    let p : P (Option Sizes) := do
+      let l ← pNat
+      let a ← pOptInt; let b ← pOptInt; let c ← pOptInt
+      let qa ← pOptInt; let qb ← pOptInt; let qc ← pOptInt
+      if l > 2 then failure
+      match a, b, c with
+      | some a, some b, some c => pure (sizes l (some ⟨a, b, c⟩) qa qb qc)
+      | none, none, none => pure (sizes l none qa qb qc)
+      | _, _, _ => failure
+    match p.run [line, s0, s1, s2, qa, qb, qc] with
+    | some (some z, _) => showInts [z.a.lo, z.a.hi, z.b.lo, z.b.hi, z.c.lo, z.c.hi]
+    | some (none, _) => err "type"
+    | none => err "format"
+  | "mono" :: rest => handleMono rest
+  | "array" :: rest => handleArray rest
+  | _ => err "op"
 
 def main : IO Unit := runDriver handleC13
